@@ -194,8 +194,16 @@ static int sweep_weekly_full(int part, int nparts, bool thorough) {
   // anchor of the weekday convention: 2022-10-01 (day 19266) was a Saturday, 2022-10-03 a Monday (workday_calendar_test.cpp)
   if (wd_of_day(19266) != 6 || wd_of_day(19268) != 1 || wd_of_day(0) != 4) { printf("@VIOL sig=harness-weekday-anchor :: reference weekday function broken\n"); return 0; }
   struct S { int sod, stride; };
-  std::vector<S> sods = {{0, 1}, {86399, 1}, {1, 7}, {43200, 7}, {86398, 7}};
-  if (thorough) sods = {{0, 1}, {86399, 1}, {1, 1}, {86398, 1}, {43200, 1}, {59, 1}, {60, 1}, {3599, 1}, {3600, 1}, {43199, 1}, {43201, 1}, {86340, 1}, {82800, 1}, {23296, 1}, {63104, 1}};
+  std::vector<S> sods;
+  {
+    std::set<int> full, grid;
+    for (int v : {0, 1, 23296, 43200, 86398, 86399}) full.insert(v);   // 23296 = 2^32 mod 86400
+    if (thorough) { for (int v : {2, 59, 60, 3599, 3600, 43199, 43201, 63104, 86340, 86397}) full.insert(v);
+                    for (int v = 0; v < 86400; v += 300) full.insert(v); for (int h = 1; h < 24; h++) { full.insert(h * 3600 - 1); full.insert(h * 3600 + 1); } }
+    else for (int v = 0; v < 86400; v += 3600) grid.insert(v + 17);
+    for (int v : full) sods.push_back({v, 1});
+    for (int v : grid) if (!full.count(v)) sods.push_back({v, 7});
+  }
   for (int mask = 0; mask < 128 && !sw.capped; mask++) {
     if (mask % nparts != part) continue;
     for (auto sd : sods) {
@@ -223,7 +231,7 @@ static int sweep_weekly_full(int part, int nparts, bool thorough) {
           if (r1 != r2) sw.viol("harness-reference-disagreement", fmt("weekly sod=%d mask=%d t=%" PRId64 " list=%" PRId64 " scan=%" PRId64, sd.sod, mask, t, r1, r2));
         }
       }
-      if (mask == 0x3e || mask == 1) sw.sample(fmt("sod=%d mask=%s every second of 3 base weeks (stride %d) vs day-scan", sd.sod, mask_str(mask).c_str(), sd.stride));
+      if ((mask == 0x3e || mask == 1) && (sd.sod == 0 || sd.sod == 86399)) sw.sample(fmt("sod=%d mask=%s every second of 3 base weeks (stride %d) vs day-scan", sd.sod, mask_str(mask).c_str(), sd.stride));
     }
     sw.outcome(mask == 0 ? "mask-empty: never found" : "found==reference");
   }
@@ -235,7 +243,8 @@ static int sweep_weekly_tz(int part, int nparts, bool thorough) {
   event::Loop *loop = event::Loop::New();
   uint64_t since_pass = 0, item = 0;
   std::vector<int> sods = {0, 1, 43200, 86398, 86399};
-  std::vector<int> masks; for (int m = 0; m < 128; m++) if (thorough || m == 0 || m == 127 || __builtin_popcount(m) <= 2 || __builtin_popcount(m) >= 6 || m == 0x3e || m == 0x2a || m == 0x55) masks.push_back(m);
+  if (thorough) sods = {0, 1, 2, 59, 60, 3599, 3600, 23296, 43199, 43200, 43201, 63104, 86340, 86397, 86398, 86399};
+  std::vector<int> masks; for (int m = 0; m < 128; m++) if (thorough || m == 0 || __builtin_popcount(m) <= 2 || __builtin_popcount(m) >= 6 || m == 0x3e || m == 0x2a || m == 0x55) masks.push_back(m);
   {
     WeeklyAlarm a(loop); a.setCallback([] {});
     for (int mask : masks) {
@@ -468,6 +477,7 @@ static std::vector<FireCfg> fire_cfgs() {
   auto mk = [&](const char *n, int kind, RefCfg ref, const char *cron, int tz, int64_t start_ms, bool ws) { FireCfg c; c.name = n; c.alarm_kind = kind; c.ref = ref; c.cron = cron ? cron : ""; c.tz_min = tz; c.start_ms = start_ms; c.wall_steps = ws; v.push_back(c); };
   RefCfg w; w.kind = RefCfg::WEEKLY; w.horizon_days = 8;
   w.sod = 36000; w.mask = 0x7f; mk("weekly-10h-everyday-tz0", 0, w, nullptr, 0, utc(2023, 10, 2, 9, 0, 0) * 1000 + 250, true);
+  mk("weekly-10h-everyday-start-5ms-before", 0, w, nullptr, 0, utc(2023, 10, 2, 10, 0, 0) * 1000 - 5, false);
   w.sod = 0; w.mask = 0x02; mk("weekly-00h-monday-tz+480", 0, w, nullptr, 480, (utc(2023, 10, 1, 23, 59, 58) - 480 * 60) * 1000 + 500, true);
   w.sod = 86399; w.mask = 0x41; mk("weekly-235959-weekend-tz-300", 0, w, nullptr, -300, (utc(2023, 10, 6, 12, 0, 0) + 300 * 60) * 1000, true);
   w.sod = 43200; w.mask = 0x00; mk("weekly-empty-mask", 0, w, nullptr, 0, utc(2023, 10, 2, 9, 0, 0) * 1000, false);
@@ -481,7 +491,7 @@ static std::vector<FireCfg> fire_cfgs() {
   mk("cron-yearly-50-days-ahead", 2, y, "0 0 0 1 1 *", 0, (utc(2024, 1, 1) - 50 * DAY) * 1000, true);
   mk("cron-yearly-100-days-ahead", 2, y, "0 0 0 1 1 *", 480, (utc(2024, 1, 1) - 480 * 60 - 100 * DAY) * 1000 + 10, true);
   y.dom = 29; y.mon = 2; mk("cron-feb29-400-days-ahead", 2, y, "0 0 0 29 2 *", 0, (utc(2024, 2, 29) - 400 * DAY) * 1000, true);
-  RefCfg k; k.kind = RefCfg::WORKDAY; k.horizon_days = 367; k.sod = 30600; k.cal_mask = 0; k.on_workday = true; k.special = {{(int)days_from_civil(2023, 10, 2) + 60, true}, {(int)days_from_civil(2023, 10, 2) + 61, true}};
+  RefCfg k; k.kind = RefCfg::WORKDAY; k.horizon_days = 367; k.sod = 30600; k.cal_mask = 0; k.on_workday = true; for (int i = 60; i < 80; i++) k.special[(int)days_from_civil(2023, 10, 2) + i] = true;
   mk("workday-next-workday-60-days-ahead", 3, k, nullptr, 0, utc(2023, 10, 2, 8, 30, 0) * 1000, true);
   return v;
 }
@@ -551,7 +561,8 @@ static int fire(const std::string &cfgname, size_t depth) {
           else if (r) viol = "alarm-enable-returned-true-while-running";
         } break;
         case DIS: { bool r = a.disable(); if (r != m_enabled) viol = "alarm-disable-return-value"; m_enabled = false; } break;
-        case REF: { a.refresh(); if (m_enabled) { if (a.isEnabled()) on_armed(g_wall_ms, a.target_utc_sec_, tev->interval_.count(), "refresh"); } } break;
+        case REF: { a.refresh(); if (m_enabled) { if (a.isEnabled()) on_armed(g_wall_ms, a.target_utc_sec_, tev->interval_.count(), "refresh");
+                                                  else if (N < 0) m_enabled = false;   /* nothing left to wait for: refresh() leaves the alarm stopped */ } } break;
         case SKEW: g_mono_ms += 5; m_skew_ms += 5; break;
         case WPLUS: g_wall_ms += 3600000; m_synced = false; break;
         case WMINUS: { g_wall_ms -= 3600000; m_synced = false; int64_t ns = fdiv(g_wall_ms, 1000);
